@@ -199,6 +199,11 @@ func (s *session[H]) doRequest(
 	}
 
 	h, err := s.processResponses(r)
+	if err == nil && h[0].Height() != req.GetOrigin() {
+		// the range is verified to be adjacent, but it also has to start where we asked,
+		// otherwise the assembled result gets gaps and duplicates
+		err = fmt.Errorf("header/p2p: range starts at %d, requested %d", h[0].Height(), req.GetOrigin())
+	}
 	if err != nil {
 		span.SetStatus(codes.Error, err.Error())
 		logFn := log.Errorw
